@@ -286,6 +286,7 @@ class Interp:
         contract = self.contracts.get(qual)
         if contract is not None and (fn is not self.target or self.in_target > 0) and hasattr(contract, "at_call"):
             self.call_log.append(qual)
+            self.ctx.ghost.setdefault("$modular", []).append(qual)      # this path used a callee's contract instead of its body
             return contract.at_call(self.E, *args, **kwargs)
         if self.depth > self.max_depth:
             raise OutOfReach(f"recursion depth exceeded in {qual}")
@@ -517,6 +518,7 @@ class Interp:
     def abstract_loop(self, st, frame, coll, spec, key):
         E, ctx = self.E, self.ctx
         tag = f"loop{key[1]}"
+        ctx.ghost["$abstract-loop"] = True          # this path used a loop summary / an arbitrary iteration
         for name, c in spec.inv(E, frame.locals):
             ctx.require(f"{tag}:init:{name}", c)
         entry_pre = dict(frame.locals)
